@@ -62,38 +62,47 @@ RAW_COUNTS = {"fptrs": "num_fptrs", "unique_names": "num_unique_names"}
 
 def _bound_edges(fn, var_decl, cont, raw_count=None):
     """Edges establishing var >= 0 and var < size(cont)."""
-    lower, upper = [], []
-    cfg = fn.cfg
+    from . import gates as G
     cs = show(cont)
-    for bid, b in cfg.blocks.items():
-        if b.cond is None or len(b.succs) != 2:
-            continue
-        c = fn.nodes.get(b.cond)
-        atom, pos = cond_atom(fn, c)
-        if atom is None or atom.get("k") != "bin":
-            continue
-        op = atom["op"]
-        x, y = strip_casts(atom["x"]), strip_casts(atom["y"])
 
-        def isvar(n):
-            return n is not None and n.get("k") == "ref" and n.get("d") == var_decl
-        for (a, b_, o) in ((x, y, op), (y, x, {"<": ">", ">": "<", "<=": ">=", ">=": "<=", "==": "==", "!=": "!="}.get(op))):
-            if o is None or not isvar(a):
-                continue
-            for polarity, idx in ((True, 0), (False, 1)):
-                oo = o if polarity == pos else {"<": ">=", "<=": ">", ">": "<=", ">=": "<", "==": "!=", "!=": "=="}[o]
-                cb = const_int(b_)
-                if cb is not None:
-                    if (oo == ">=" and cb >= 0) or (oo == ">" and cb >= -1) or (oo == "==" and cb >= 0):
-                        lower.append((bid, idx))
-                sz = _size_of(atom["y"] if a is x else atom["x"])
-                if sz is not None and sz == cs and oo == "<":
-                    upper.append((bid, idx))
-                if raw_count is not None:
-                    other = strip_casts(b_)
-                    if other is not None and field_of(other) and field_of(other).endswith(raw_count) and oo == "<":
-                        upper.append((bid, idx))
-    return lower, upper
+    def isvar(n):
+        return n is not None and n.get("k") == "ref" and n.get("d") == var_decl
+
+    def norm(atom, truth):
+        c = G.cmp_atom(atom)
+        if not c:
+            return None
+        op, a, b = c
+        a_raw, b_raw = (atom.get("x"), atom.get("y")) if atom.get("k") == "bin" else (atom["a"][0], atom["a"][1])
+        if isvar(b) and not isvar(a):
+            op, a, b, a_raw, b_raw = G.SWAP[op], b, a, b_raw, a_raw
+        if not isvar(a):
+            return None
+        if not truth:
+            op = G.NEG[op]
+        return op, b, b_raw
+
+    def lower(atom, truth):
+        r = norm(atom, truth)
+        if not r:
+            return False
+        op, b, _ = r
+        cb = const_int(b)
+        return cb is not None and ((op == ">=" and cb >= 0) or (op == ">" and cb >= -1) or (op == "==" and cb >= 0))
+
+    def upper(atom, truth):
+        r = norm(atom, truth)
+        if not r:
+            return False
+        op, b, b_raw = r
+        if op != "<":
+            return False
+        if _size_of(b_raw) == cs:
+            return True
+        if raw_count is not None and field_of(b) and field_of(b).endswith(raw_count):
+            return True
+        return False
+    return G.edges_where(fn, lower), G.edges_where(fn, upper)
 
 
 def _neutral(db, fn, e):
